@@ -87,7 +87,10 @@ var (
 	problems   []string
 )
 
-var coqType = map[string]string{"map": "dmap", "string": "string", "bool": "bool", "N": "N", "nat": "nat",
+var coqType = map[string]string{"tmap": "table", "ilist": "list imp", "amap": "list (string * string)", "slist": "list string",
+	"ostr": "option string", "opkg": "option (string * string)", "tys": "list ty", "ty": "ty", "strs": "list string",
+	"rmeth": "rmeth", "mfunc": "meth", "mlist": "list meth", "gmlist": "list (string * list gparam * list gparam)", "msig": "string", "builder": "string", "gmeth": "(string * list gparam * list gparam)", "tvar": "(pinfo * ty)", "tuple": "list (pinfo * ty)", "glist": "list gparam", "gparam": "gparam",
+	"map": "dmap", "string": "string", "bool": "bool", "N": "N", "nat": "nat",
 	"plist": "list pinfo", "pinfo": "pinfo", "imp": "imp", "mmap": "list (string * A)", "mset": "list string", "melem": "A"}
 
 // fields of *ImportDesc
@@ -103,6 +106,7 @@ type loopCtx struct {
 }
 
 type fn struct {
+	w        *world // the go/types / ImportHandler vocabulary (world.go); nil for the naming functions
 	name     string
 	env      map[string]string
 	problems []string
@@ -206,6 +210,11 @@ func lookup(name string) *sig {
 
 // varOf names the variable an assignable/receiver expression denotes: x, m.Input, m.Output.
 func (f *fn) varOf(e ast.Expr) string {
+	if f.w != nil {
+		if v := f.w.varOf(f, e); v != "" {
+			return v
+		}
+	}
 	switch x := e.(type) {
 	case *ast.Ident:
 		return x.Name
@@ -302,6 +311,11 @@ func (f *fn) call(c *ast.CallExpr) (pre, val, typ string, ok bool) {
 
 // expr translates an expression; want is the expected type of an integer literal ("N" or "nat").
 func (f *fn) expr(e ast.Expr, want string) (pre, val, typ string) {
+	if f.w != nil {
+		if p, v, t, ok := f.w.expr(f, e, want); ok {
+			return p, v, t
+		}
+	}
 	switch x := e.(type) {
 	case *ast.ParenExpr:
 		return f.expr(x.X, want)
@@ -370,9 +384,25 @@ func (f *fn) expr(e ast.Expr, want string) (pre, val, typ string) {
 			if tl == "string" && tr == "string" {
 				return pre, "(" + l + " ++ " + r + ")%string", "string"
 			}
+			if tl == "nat" && tr == "nat" {
+				return pre, "(" + l + " + " + r + ")%nat", "nat"
+			}
 		case token.SUB:
 			if tl == "nat" && tr == "nat" {
 				return pre, "(" + l + " - " + r + ")%nat", "nat"
+			}
+		case token.LSS, token.GTR, token.LEQ, token.GEQ:
+			if tl == "nat" && tr == "nat" {
+				switch x.Op {
+				case token.LSS:
+					return pre, "(Nat.ltb " + l + " " + r + ")", "bool"
+				case token.GTR:
+					return pre, "(Nat.ltb " + r + " " + l + ")", "bool"
+				case token.LEQ:
+					return pre, "(Nat.leb " + l + " " + r + ")", "bool"
+				default:
+					return pre, "(Nat.leb " + r + " " + l + ")", "bool"
+				}
 			}
 		case token.EQL, token.NEQ:
 			eq := ""
@@ -471,9 +501,16 @@ func (f *fn) assigned(list []ast.Stmt) []string {
 					if v := f.varOf(t); v != "" {
 						mark(v)
 					} else if id, ok := t.X.(*ast.Ident); ok {
-						mark(id.Name)
+						if f.w == nil || !f.w.ignoredField(f, id.Name, t.Sel.Name) {
+							mark(id.Name)
+						}
 					} else if _, ok := f.elemRef(t.X); ok && f.loop != nil && f.loop.kind == "range" {
 						mark(f.loop.elem) // ps[i].Name = e changes the element
+					}
+					if f.w != nil {
+						for _, v := range f.w.alsoAssigned(f, t) {
+							mark(v)
+						}
 					}
 				case *ast.Ident:
 					if s.Tok == token.DEFINE {
@@ -496,6 +533,11 @@ func (f *fn) assigned(list []ast.Stmt) []string {
 		case *ast.IncDecStmt:
 			mark(f.varOf(s.X))
 		case *ast.CallExpr:
+			if f.w != nil {
+				for _, v := range f.w.callAssigns(f, s) {
+					mark(v)
+				}
+			}
 			name := ""
 			switch fun := s.Fun.(type) {
 			case *ast.Ident:
@@ -729,6 +771,11 @@ func (f *fn) stmts(list []ast.Stmt, k func() string) string {
 		return k()
 	}
 	rest := func() string { return f.stmts(list[1:], k) }
+	if f.w != nil {
+		if out, ok := f.w.stmt(f, list, k); ok {
+			return out
+		}
+	}
 	switch s := list[0].(type) {
 	case *ast.EmptyStmt:
 		return rest()
@@ -868,11 +915,16 @@ func (f *fn) stmts(list []ast.Stmt, k func() string) string {
 		}
 		return f.bad("expression statement")
 	case *ast.ReturnStmt:
-		if len(s.Results) != 1 || f.loop != nil {
+		if len(s.Results) == 0 || f.loop != nil {
 			return f.bad("return form")
 		}
-		p, v, _ := f.expr(s.Results[0], "nat")
-		return p + "(" + strings.Join(append([]string{v}, f.outs...), ", ") + ")"
+		pre, vals := "", []string{}
+		for _, r := range s.Results {
+			p, v, _ := f.expr(r, "nat")
+			pre += p
+			vals = append(vals, v)
+		}
+		return pre + "(" + strings.Join(append(vals, f.outs...), ", ") + ")"
 	case *ast.BranchStmt:
 		if f.loop == nil || s.Label != nil {
 			return f.bad("jump outside a loop")
@@ -947,8 +999,12 @@ func (f *fn) stmts(list []ast.Stmt, k func() string) string {
 			sort.Strings(vars)
 		}
 		m := f.firstMap(s.Cond, s.Post, s.Body)
+		fuel := "(loop_fuel v_" + m + ")"
 		if m == "" {
-			return f.bad("loop that consults no map (no bound available)")
+			if f.w == nil {
+				return f.bad("loop that consults no map (no bound available)")
+			}
+			fuel = f.w.fuel(f) // the collections the function can see bound the loop
 		}
 		pc, cond, _ := f.expr(s.Cond, "nat")
 		if pc != "" {
@@ -958,7 +1014,7 @@ func (f *fn) stmts(list []ast.Stmt, k func() string) string {
 		f.loop = &loopCtx{kind: "for3", vars: vars}
 		body := f.stmts(append(append([]ast.Stmt{}, s.Body.List...), s.Post), func() string { return tuple(vars) })
 		f.loop = outer
-		return init + "let " + pat(vars) + " := while_loop (loop_fuel v_" + m + ")\n(fun " + pat(vars) + " => " + cond +
+		return init + "let " + pat(vars) + " := while_loop " + fuel + "\n(fun " + pat(vars) + " => " + cond +
 			")\n(fun " + pat(vars) + " =>\n" + body + ")\n" + tuple(vars) + " in\n" + rest()
 	case *ast.RangeStmt:
 		src := f.varOf(s.X)
@@ -1296,9 +1352,15 @@ func mergeStep(file *ast.File) string {
 // the if that asks `.Exported()`; `opts.Has(IncludePrivate)` is the option bit.
 func visibleCond(file *ast.File) string {
 	var cond ast.Expr
+	skips := false // the if guards a `continue`: its condition says when a method is NOT listed
 	ast.Inspect(file, func(x ast.Node) bool {
 		if is, ok := x.(*ast.IfStmt); ok && cond == nil && hasCall(is.Cond, "Exported") {
 			cond = is.Cond
+			if n := len(is.Body.List); n > 0 {
+				if br, ok := is.Body.List[n-1].(*ast.BranchStmt); ok && br.Tok == token.CONTINUE {
+					skips = true
+				}
+			}
 		}
 		return cond == nil
 	})
@@ -1336,7 +1398,11 @@ func visibleCond(file *ast.File) string {
 		return "UNSUPPORTED_visible_condition"
 	}
 	translated = append(translated, "the listing condition as gen_visible")
-	return "(* a declared method is listed if *)\nDefinition gen_visible (v_include_private v_exported : bool) : bool :=\n" + tr(cond) + ".\n\n"
+	body := tr(cond)
+	if skips {
+		body = "(negb " + body + ")"
+	}
+	return "(* a declared method is listed if *)\nDefinition gen_visible (v_include_private v_exported : bool) : bool :=\n" + body + ".\n\n"
 }
 
 func main() {
@@ -1358,7 +1424,15 @@ func main() {
 		for _, d := range file.Decls {
 			if fd, ok := d.(*ast.FuncDecl); ok && fd.Body != nil {
 				if name == "imports.go" && fd.Name.Name != "ImportString" {
+					wdecls[fd.Name.Name] = fd
 					continue
+				}
+				switch fd.Name.Name {
+				case "TypeNames", "Declarations", "Signature", "ParamsFromSignatureTuple", "MethodFromSignature":
+					wdecls[fd.Name.Name] = fd // read again in the vocabulary of world.go
+					if fd.Name.Name != "MethodFromSignature" { // the entry of the naming functions is found through it
+						continue
+					}
 				}
 				decls[fd.Name.Name] = fd
 			}
@@ -1368,6 +1442,7 @@ func main() {
 	b.WriteString("(* GENERATED by harness/cmd/xlate_params from gencommon/params.go, method.go, imports.go and interface.go of the current tree — do not edit *)\n")
 	b.WriteString("From Coq Require Import List Bool String NArith Arith.\nImport ListNotations.\nFrom GT Require Import IFaceModel IFaceGenPrims.\n\n")
 	e := entry()
+	delete(decls, "MethodFromSignature") // read in the vocabulary of world.go from here on
 	if e == "" {
 		problems = append(problems, "entry: MethodFromSignature calls no method of *Method")
 	} else {
@@ -1377,6 +1452,34 @@ func main() {
 	b.WriteString(defs.String())
 	b.WriteString(mergeStep(ifaceFile))
 	b.WriteString(visibleCond(ifaceFile))
+	// imports.go: the loop of calcImports, unusedName, addNamed, ExtractTypeRef (world.go)
+	defs.Reset()
+	step := calcStep()
+	stepHelpers := defs.String() // helpers the loop body calls come first
+	defs.Reset()
+	for _, name := range []string{"unusedName", "ExtractTypeRef", "TypeNames", "Declarations", "Signature", "ParamsFromSignatureTuple", "MethodFromSignature"} {
+		if _, ok := wdecls[name]; !ok {
+			problems = append(problems, name+": not found")
+			defs.WriteString("Definition gen_" + name + " := UNSUPPORTED_function_" + name + "_not_found.\n\n")
+			continue
+		}
+		wlookup(name)
+	}
+	b.WriteString(stepHelpers)
+	b.WriteString(step)
+	b.WriteString(defs.String())
+	// interface.go: the loop over the declared methods (helpers it calls are functions of interface.go)
+	defs.Reset()
+	for _, d := range ifaceFile.Decls {
+		if fd, ok := d.(*ast.FuncDecl); ok && fd.Body != nil && fd.Recv == nil {
+			if _, taken := wdecls[fd.Name.Name]; !taken {
+				wdecls[fd.Name.Name] = fd
+			}
+		}
+	}
+	own := ownLoop(ifaceFile)
+	b.WriteString(defs.String())
+	b.WriteString(own)
 	for _, want := range []string{"gen_reserveParamName", "gen_getSafeParamName", "gen_keepNames", "gen_ensureNames", "gen_ensureParamNames", "gen_ImportString"} {
 		if !usedCoq[want] {
 			b.WriteString("Definition " + want + " := UNSUPPORTED_no_function_in_the_role_of_" + want + ".\n\n")
